@@ -195,7 +195,7 @@ pub fn run(cx: &Ctx) {
                 S18 { ty: ty.clone(), ops, checkpoint: cp }
             })
         };
-        cx.run_pt(&RoundTrip, cx.by(150, 3000), cx.workers.min(8), strat, "streams of 0..9 operations, checkpoint uniform over 0..=len (covers the <5-observation phase of Quantile)");
+        cx.run_pt(&RoundTrip, cx.by(600, 6000), cx.workers.min(8), strat, "streams of 0..9 operations, checkpoint uniform over 0..=len (covers the <5-observation phase of Quantile)");
     }
     cx.label("long-streams");
     for ty in SERDE_TYPES {
@@ -209,7 +209,7 @@ pub fn run(cx: &Ctx) {
                 S18 { ty: ty.clone(), ops, checkpoint: cp }
             })
         };
-        cx.run_pt(&RoundTrip, cx.by(60, 1500), cx.workers.min(8), strat, "streams of 10..60 (thorough 400) operations");
+        cx.run_pt(&RoundTrip, cx.by(200, 3000), cx.workers.min(8), strat, "streams of 10..60 (thorough 400) operations");
     }
 }
 
